@@ -72,6 +72,57 @@ def may_be_none(T, a):
     return False
 
 
+class RelayByte:
+    """the byte the driver hands to a callee's request (opaque: the caller has no business looking at it)"""
+
+    def __init__(self, tag):
+        self.tag = tag
+
+    def __repr__(self):
+        return f"RelayByte({self.tag})"
+
+
+def relay_items(ctx, a, kinds=None):
+    """coroutine protocol between a walker and its callee: whatever the callee yields must reach the walker's own caller in
+    order and exactly once, and the reply must reach the callee.  The abstract callee therefore yields one request for a byte,
+    one event and (warn mode) one warning before it produces its outcome; the driver records what arrives (explore.
+    drive_coroutine) and the replies are checked here."""
+    from tpmstream.common.event import MarshalEvent, WarningEvent
+    from tpmstream.common.error import ConstraintViolatedError
+
+    R = ctx.ghost.setdefault("relay", {"expected": [], "seen": [], "objs": {}, "bad": []})
+    tag = len(R["expected"])
+    strict = a.get("abort_on_error")
+    if kinds is None:
+        kinds = ["need", "event"] + ([] if strict is True else ["warning"])
+    for kind in kinds:
+        key = (tag, kind)
+        R["expected"].append(key)
+        if kind == "need":
+            R["need"] = key
+            got = yield None
+            if not (isinstance(got, RelayByte) and got.tag == key):
+                R["bad"].append(f"the callee asked for a byte and was sent {got!r}")
+        else:
+            obj = MarshalEvent(a.get("path"), a.get("tpm_type"), ...) if kind == "event" else WarningEvent(error=ConstraintViolatedError(f"relay {tag}"))
+            R["objs"][id(obj)] = (key, obj)
+            got = yield obj
+            if got is not None:
+                R["bad"].append(f"the callee yielded {kind} and was sent {got!r}")
+
+
+def relay_finish(ctx, site=""):
+    """obligations of the relay protocol at the end of a path (also before an invariant rule cuts the path)"""
+    R = ctx.ghost.get("relay")
+    if not R or R.get("closed") == len(R["expected"]):
+        return
+    R["closed"] = len(R["expected"])
+    ok = R["seen"] == R["expected"]
+    ctx.record("RELAY/what-a-callee-yields-reaches-the-caller-in-order-and-exactly-once", ok, "post", site,
+               detail="" if ok else f"callee yielded {R['expected'][:8]}, the walker passed on {R['seen'][:8]}")
+    ctx.record("RELAY/replies-reach-the-callee", not R["bad"], "post", site, detail="; ".join(R["bad"][:3]))
+
+
 class ProcessContract:
     """contract of process(T, path, ...) as seen by a caller (DESIGN §2.4, §4 U4)
 
@@ -90,8 +141,8 @@ class ProcessContract:
         contract = self
 
         def gen():
+            yield from relay_items(I.ctx, a)
             return contract.drive(I, a)
-            yield
 
         return IGen(gen(), "process-contract")
         yield
@@ -217,8 +268,10 @@ def region_method_stub(name, params, defaults):
         a = bind(params, defaults, args, kwargs, name)
 
         def gen():
+            if a.get("abort_on_error") is not True:
+                # warn mode: these methods report through yielded warnings and skip bytes; the walker must pass both on
+                yield from relay_items(I.ctx, {"abort_on_error": a.get("abort_on_error"), "path": None, "tpm_type": None}, kinds=("warning", "need"))
             return drive_region_method(I, name, a)
-            yield
 
         return IGen(gen(), name + "-contract")
         yield
